@@ -17,6 +17,8 @@ func main() {
 		switch *sub {
 		case "c18":
 			subC18(flag.Arg(0))
+		case "c06":
+			subC06(flag.Args())
 		case "race":
 			subRace(flag.Arg(0), *tier, *seed)
 		default:
@@ -53,6 +55,10 @@ func main() {
 		runC08(rep, *tier, *seed)
 	case "C20":
 		runC20(rep, *tier, *seed)
+	case "C07":
+		runC07(rep, *tier, *seed)
+	case "C06":
+		runC06(rep, *tier, *seed)
 	case "C01":
 		runC01(rep, *tier, *seed)
 	case "C02":
